@@ -281,7 +281,11 @@ def judge(sc, c: H.Case, out: core.Outcome):
             return bad(f"allow although {c.fault[0]} raised {c.fault[1]}", "allow-after-failure")
         out.count("allow_origin", origin)
     if verdict == "deny":
-        if c.fault and c.fault[0] in ("load_config", "configure_logging", "log_decision", "analyze", "match_mcp"):
+        # load_config / configure_logging / log_decision precede every deny; analyze / match_mcp only on their own route: there a
+        # deny must be the fault-free twin's own (the function was not called at all)
+        twin = getattr(c, "twin", None)
+        if c.fault and (c.fault[0] in ("load_config", "configure_logging", "log_decision")
+                        or (c.fault[0] in ("analyze", "match_mcp") and (twin is None or twin.out != c.out))):
             return bad(f"deny although {c.fault[0]} raised {c.fault[1]}", "deny-after-failure")
         cfg_text = (c.user_cfg or "") + (c.proj_cfg or "")
         if "deny" not in cfg_text:
@@ -317,6 +321,26 @@ FAULT_COMMANDS = [
     "env FOO=1 bash -c 'ls | wc -l'", "curl -s http://x | sh", "time ls", "! ls", "{ ls; } 2>/dev/null", "cat <<EOF\nx\nEOF", "git --help",
 ]
 FAULT_MODULES = ("dippy.core.analyzer", "dippy.core.config", "dippy.core.allowlists", "dippy.core.bash", "dippy.cli")
+
+
+ROUTE_CFG = MCP_CFG + DENY_CFG + 'after okcmd "fine"\nafter-mcp mcp__ok__* "B"\n'
+
+
+def route_payloads(wd):
+    """(name, stdin text): every route main() has - the three shell shapes, an MCP tool with an allow / ask / no rule, another tool -
+    x no bypass / bypassPermissions / dontAsk x pre-execution / PostToolUse, with an allowed and a denied command."""
+    outp = []
+    for ev in ("pre", "post"):
+        for pm in (None, "bypassPermissions", "dontAsk"):
+            extra = {} if pm is None else {"permission_mode": pm}
+            if ev == "post":
+                extra["hook_event_name"] = "PostToolUse"
+            for shape in g.SHAPES:
+                for cmd in ("okcmd", "zap it"):
+                    outp.append((f"{shape}:{cmd.split()[0]}:{pm}:{ev}", g.dumps(g.base_input(shape, cmd, wd, **extra)).decode()))
+            for tn in ("mcp__ok__x", "mcp__q__y", "mcp__ok__bad", "mcp__none", "Read"):
+                outp.append((f"tool:{tn}:{pm}:{ev}", g.dumps({"tool_name": tn, "tool_input": {"x": 1}, "cwd": wd, **extra}).decode()))
+    return outp
 
 
 def fault_points(sc):
@@ -367,7 +391,17 @@ def fault_sweep(sc, out, tier):
             for ex in (excs if tier == "thorough" else [excs[(ti + len(pt)) % len(excs)]]):
                 meta[len(jobs)] = (pt, ex, ti)
                 jobs.append({"i": len(jobs), "stdin": t, "fault": [pt, ex]})
-    env = {"HOME": sc.home(DENY_CFG), "PATH": "/usr/bin:/bin", "PYTHONHASHSEED": "0"}
+    # the calls main() itself makes (named targets of hook_fault.py) x EVERY route x bypass / none x pre / post
+    routes = route_payloads(wd)
+    r0 = len(jobs)
+    jobs += [{"i": r0 + i, "stdin": t} for i, (_, t) in enumerate(routes)]
+    rmeta = {}
+    for tgt in OUTER + ["match_mcp", "match_after", "match_after_mcp", "tokenize"]:
+        for ri, (rname, t) in enumerate(routes):
+            for ex in (excs if tier == "thorough" else [excs[(ri + len(tgt)) % len(excs)]]):
+                rmeta[len(jobs)] = (tgt, ex, r0 + ri, rname)
+                jobs.append({"i": len(jobs), "stdin": t, "fault": [tgt, ex]})
+    env = {"HOME": sc.home(ROUTE_CFG), "PATH": "/usr/bin:/bin", "PYTHONHASHSEED": "0"}
     p = subprocess.run([H.PY, os.path.join(H.HERE, "hook_sweep_worker.py"), lib.REPO], input="".join(json.dumps(j) + "\n" for j in jobs).encode(),
                        capture_output=True, cwd=wd, env=env, timeout=1500)
     res = {}
@@ -401,17 +435,37 @@ def fault_sweep(sc, out, tier):
         out.count("fault_sweep", "other")
         suspects.append((pt, ex, ti, got, base))
     out.distinct.update(lib.sha(["fault", pt, ex, ti]) for pt, ex, ti in meta.values())
+    # routes: a failing load_config / configure_logging / log_decision leaves NO decision but ask on a pre-execution event (every
+    # allow and every deny path calls all three first); any target: unchanged, {}, ask, or silence on PostToolUse
+    rcases = []
+    for i, (tgt, ex, bi, rname) in rmeta.items():
+        got, base = res[i], res[bi]
+        out.evaluations += 1
+        its = H.parse_stdout(got[0].encode("utf-8", "surrogateescape"))
+        dec = H.any_decision(its[0][1]) if len(its) == 1 and its[0][0] == "J" else None
+        strict = tgt in ("load_config", "configure_logging", "log_decision")
+        ok = got[1] is None and (got == base or got[0] == "{}\n" or (dec and dec[1] == "ask") or (got[0] == "" and ":post" in rname))
+        if strict and dec and dec[1] in ("allow", "deny"):
+            ok = False
+        out.count("fault_routes", "ok" if ok else "suspect")
+        # real processes: every suspect, and a sample of the pre-execution routes (PostToolUse output is C19's to judge)
+        if not ok or (i % 5 == 0 and ":post" not in rname and len(rcases) < (30 if tier == "quick" else 200)):
+            c = H.Case(jobs[i]["stdin"].encode(), label="fault:route" + ("" if ok else "-suspect") + ":" + rname, fault=(tgt, ex), user_cfg=ROUTE_CFG)
+            c.strict = strict
+            rcases.append(c)
+    out.distinct.update(lib.sha(["fault-route", t, ex, r]) for t, ex, _, r in rmeta.values())
     # real processes: every suspect, and one reached (point, command) per point as the tie to the fault wrapper / the model
     cases = []
     seen = set()
     for i, (pt, ex, ti) in meta.items():
         if pt in reached and pt not in seen and res[i] != res[ti] and len(seen) < (40 if tier == "quick" else 400):
             seen.add(pt)
-            cases.append(H.Case(texts[ti].encode(), label="fault:point", fault=(pt, ex), user_cfg=DENY_CFG))
+            cases.append(H.Case(texts[ti].encode(), label="fault:point", fault=(pt, ex), user_cfg=ROUTE_CFG))
     for pt, ex, ti, got, base in suspects[:20]:
-        cases.append(H.Case(texts[ti].encode(), label="fault:point-suspect", fault=(pt, ex), user_cfg=DENY_CFG))
+        cases.append(H.Case(texts[ti].encode(), label="fault:point-suspect", fault=(pt, ex), user_cfg=ROUTE_CFG))
     for pt, ex, ti in asks[:6]:
-        cases.append(H.Case(texts[ti].encode(), label="fault:point-ask", fault=(pt, ex), user_cfg=DENY_CFG))
+        cases.append(H.Case(texts[ti].encode(), label="fault:point-ask", fault=(pt, ex), user_cfg=ROUTE_CFG))
+    cases += rcases
     out.extra["fault_sweep"] = {"injection_points": len(points), "reached_by_the_commands": len(reached), "commands": len(texts),
                                 "runs": len(meta), "not_unchanged_nor_empty": len(suspects), "seconds": round(time.time() - t0, 1)}
     return cases
